@@ -5,7 +5,7 @@ import TaskModel.Sched.DeadlockLemmas
 import Driver.Util
 /-!
 `sched.run F <cap|-> <parallel> <force> <forceAll> <yes> <maxCalls> <promptErr>
-           P <ntasks> { <ndeps> dep* <ncmds> cmd* <ignoreErr> <run> <internal> <platformOk> <requiresOk> <enumOk> <precondOk> <upToDate> <prompt> }*
+           P <ntasks> { <ndeps> dep* <ncmds> cmd* <ignoreErr> <run> <internal> <platformOk> <requiresOk> <enumOk> <precondOk> <upToDate> <prompt> <compileOk> }*
            C <ncalls> task*
            E <nevents> { <act> <ev> arg* }*
            R <result>`
@@ -64,8 +64,8 @@ def taskDef : P TaskDef := do
   let nc ← nat; let cmds ← many nc cmd
   let ignoreError ← bool; let run ← runMode; let internal ← bool
   let platformOk ← bool; let requiresOk ← bool; let enumOk ← bool
-  let precondOk ← bool; let upToDate ← bool; let prompt ← bool
-  pure { deps, cmds, ignoreError, run, internal, platformOk, requiresOk, enumOk, precondOk, upToDate, prompt }
+  let precondOk ← bool; let upToDate ← bool; let prompt ← bool; let compileOk ← bool
+  pure { deps, cmds, ignoreError, run, internal, platformOk, requiresOk, compileOk, enumOk, precondOk, upToDate, prompt }
 
 def flags : P Flags := do
   expect "F"
